@@ -485,3 +485,23 @@ def run(ctx):
         ctx.ob(R9, mh.qual, f"handler `except {', '.join(astq.handler_type_names(h))}` re-raises", ok, "" if ok else "a certificate that does not match the host is accepted", node=h)
     calls_ = [c for c in astq.calls(mh.node) if astq.call_text(c) == "match_hostname"]
     ctx.ob(R9, mh.qual, "delegates to match_hostname(cert, asserted_hostname, ...)", bool(calls_) and astq.text(calls_[0].args[1]) == "asserted_hostname")
+
+
+# ---------------------------------------------------------------------------- R10 shared with C08 (added after seeded change C07/matcher-loses-end-anchor)
+_run_base07 = run
+
+
+def run(ctx):  # noqa: F811
+    _run_base07(ctx)
+    R10 = ctx.rule("C07-R10", "when urllib3 checks the hostname itself (pyOpenSSL, assert_hostname, caller context without check_hostname) the matcher accepts whole-name matches only (shared with C08-R1): the pattern is anchored at both ends and applied to the whole hostname, so a certificate for *.svc.test does not verify api.svc.test.evil.example", "E10 effect rows (shared with C08)")
+    from . import c08_pattern
+
+    before = len(ctx.obs)
+    rules_before = dict(ctx.rules)
+    c08_pattern.run(ctx)
+    keep_rules = ("C08-R1",)
+    ctx.obs[before:] = [o for o in ctx.obs[before:] if o.rule in keep_rules]
+    for r in list(ctx.rules):
+        if r.startswith("C08-") and r not in keep_rules and r not in rules_before:
+            ctx.rules.pop(r)
+    ctx.ob(R10, "urllib3.util.ssl_match_hostname._dnsname_match", f"{len(ctx.obs) - before} shared obligations (C08-R1)", True)
